@@ -240,6 +240,10 @@ func (b *tableParagraphTransformer) parseRow(segment text.Segment,
 		row.AppendChild(row, node)
 		pos = closure + 1
 	}
+	if isHeader {
+		// a header is never padded: its cell count must match the delimiter row
+		return row
+	}
 	for ; i < len(alignments); i++ {
 		row.AppendChild(row, ast.NewTableCell())
 	}
